@@ -159,6 +159,15 @@ CHECKS = {
              "(computed from the key's numbers) after each step of every replayed chain, and per key kind across private/public JWK, shuffled members with "
              "optional members, PEM and DER origins, repeated ensure_kid/as_dict calls and the sha384/sha512 digests.",
         note="Trusted: TLC, hashlib, refimpl. The RFC 7638 3.1 example key is not available offline."),
+    "C18": dict(
+        cat="model_checking", ref="DESIGN.md section 6 (C18), 4.2",
+        technique="TLA+ Fresh spec (Draw enabled only for never-drawn values of the required size; bit accumulators) with trace validation: histories of real encryptions/key generations recorded from outputs and checked by TLC against TraceFresh.tla",
+        text="Fresh.tla specifies the generator discipline; MC_Fresh is model-checked exhaustively. Drivers run N encryptions per (alg, enc, serialization) with "
+             "the same key and equal header values in fresh header objects, spread over four fresh processes, and N key generations per key type; IV, CEK "
+             "(recovered independently with refimpl), epk, GCM-KW iv and PBES2 p2s/p2c are read from the outputs and become trace events. TLC validates every "
+             "trace step by step against the spec's Draw action (distinctness, exact size per JoseDefs, epk on the recipient's curve, default p2c >= 1000) and "
+             "checks at the end of each trace that no bit position was constant; corrupted copies of a trace must be rejected (binding demonstration).",
+        note="Trusted: TLC, refimpl for CEK recovery. Unpredictability is not decided (a non-repeating non-cryptographic generator passes)."),
 }
 
 NOT_YET = {}
